@@ -1447,6 +1447,13 @@ func runC16(args []string) error {
 	nMain, nFile, nErr, nRegion := 220, 80, 25, 10
 	if thorough {
 		nMain, nFile, nErr, nRegion = 6000, 2000, 500, 250
+		// VERIF_C16_SCALE=<percent> shrinks the thorough tier (to try the pipeline on a busy machine)
+		if v := os.Getenv("VERIF_C16_SCALE"); v != "" {
+			var pc int
+			if fmt.Sscan(v, &pc); pc > 0 && pc < 100 {
+				nMain, nFile, nErr, nRegion = max(nMain*pc/100, 1), max(nFile*pc/100, 1), max(nErr*pc/100, 1), max(nRegion*pc/100, 1)
+			}
+		}
 	}
 	var progs []*c16case
 	for i := 0; i < nMain; i++ {
